@@ -169,3 +169,117 @@ package types
 //@   ensures truncInt(linSched(A, s, e, t) + carry) == A
 //@   reveal linSched
 //@   prop C02
+//@
+//@ // ---- inflation (C19) ----
+//@ spec opaque func linInfl(A int, s int, e int, supply int) int =
+//@   supply <= 0 ? 0 : tquo(tquo(A * P * yearNs, e - s), supply)
+//@ spec opaque func expInfl(A int, m int, step int, s int, e int, hasEnd bool, t int, supply int) int =
+//@   supply <= 0 ? 0 : ((hasEnd && t >= e) ? 0 : tquo(tquo(expE(A, m, tquo(t - s, step)) * yearNs, step), supply))
+//@
+//@ func (m *LinearMinting) CalculateInflation(totalSupply, minterStart, endTime, blockTime) (res)
+//@   requires m != nil && endTime != nil && !m.Amount.IsNil() && !totalSupply.IsNil()
+//@   requires timeOK(minterStart) && timeOK(*endTime) && *endTime > minterStart
+//@   ensures !res.IsNil() && res == linInfl(m.Amount, minterStart, *endTime, totalSupply)
+//@   reveal linInfl
+//@   prop C19
+//@ func (m *ExponentialStepMinting) CalculateInflation(totalSupply, startTime, endTime, blockTime) (res)
+//@   requires m != nil && !m.Amount.IsNil() && !m.AmountMultiplier.IsNil() && !totalSupply.IsNil()
+//@   requires timeOK(startTime) && timeOK(blockTime) && (endTime != nil ==> timeOK(*endTime))
+//@   requires m.StepDuration > 0 && startTime <= blockTime
+//@   ensures !res.IsNil()
+//@   ensures res == expInfl(m.Amount, m.AmountMultiplier, m.StepDuration, startTime, *endTime, endTime != nil, blockTime, totalSupply)
+//@   reveal expInfl
+//@   prop C19
+//@ loop ExponentialStepMinting.CalculateInflation#1
+//@   invariant 0 <= i && i <= numOfPassedEpochs
+//@   invariant !epochAmount.IsNil() && epochAmount == expE(m.Amount, m.AmountMultiplier, i - 1)
+//@   decreases numOfPassedEpochs - i
+//@ func (m *NoMinting) CalculateInflation(totalSupply, startTime, endTime, blockTime) (res)
+//@   ensures !res.IsNil() && res == 0
+//@   prop C19
+//@
+//@ spec func infl(m, s, t, supply) int =
+//@   s > t ? 0 : (isLinear(m) ? linInfl(linCfg(m).Amount, s, *m.EndTime, supply)
+//@   : (isExp(m) ? expInfl(expCfg(m).Amount, expCfg(m).AmountMultiplier, expCfg(m).StepDuration, s, *m.EndTime, m.EndTime != nil, t, supply) : 0))
+//@ func (m *Minter) CalculateInflation(totalSupply, startTime, blockTime) (res)
+//@   requires validMinter(m) && !totalSupply.IsNil() && timeOK(startTime) && timeOK(blockTime)
+//@   requires m.EndTime != nil ==> *m.EndTime > startTime
+//@   ensures !res.IsNil() && res == infl(m, startTime, blockTime, totalSupply)
+//@   prop C19
+//@
+//@ // reported inflation = annualised emission rate / supply, up to the stated rounding tolerance (units: 10^-18):
+//@ // one truncation by supply and one by the period on the inflation side, one per schedule value on the emission side
+//@ pred msAligned(t int) = t % 1000000 == 0
+//@ lemma mulCancelLe(d int, a int, b int)
+//@   requires d > 0 && d * a <= d * b
+//@   ensures a <= b
+//@   prop C19
+//@ // arithmetic core: D period (ms), dp elapsed (ms), q1/q2 schedule values, R yearly amount, I inflation
+//@ lemma rateCore(AP int, D int, p1 int, p2 int, q1 int, q2 int, R int, I int, supply int)
+//@   requires AP >= 0 && D > 0 && supply > 0 && 0 <= p1 && p1 < p2
+//@   requires D * q1 <= AP * p1 && AP * p1 < D * q1 + D && D * q2 <= AP * p2 && AP * p2 < D * q2 + D
+//@   requires 1000000 * D * R <= AP * yearNs && AP * yearNs < 1000000 * D * R + 1000000 * D
+//@   requires supply * I <= R && R < supply * I + supply
+//@   ensures abs((q2 - q1) * yearNs - I * supply * (1000000 * (p2 - p1))) <= (supply + 1) * (1000000 * (p2 - p1)) + 2 * yearNs
+//@   uses mulMono(p2 - p1, supply * I, R), mulMono(p2 - p1, R, supply * I + supply)
+//@   uses mulMono(p2 - p1, 1000000 * D * R, AP * yearNs), mulMono(p2 - p1, AP * yearNs, 1000000 * D * R + 1000000 * D)
+//@   uses mulMono(D, supply * I * (p2 - p1), R * (p2 - p1)), mulMono(D, R * (p2 - p1), (supply * I + supply) * (p2 - p1))
+//@   uses mulCancelLe(D, (q2 - q1) * yearNs - I * supply * (1000000 * (p2 - p1)), (supply + 1) * (1000000 * (p2 - p1)) + 2 * yearNs)
+//@   uses mulCancelLe(D, 0 - ((supply + 1) * (1000000 * (p2 - p1)) + 2 * yearNs), (q2 - q1) * yearNs - I * supply * (1000000 * (p2 - p1)))
+//@   prop C19
+//@ lemma linInflRate(A int, s int, e int, t1 int, t2 int, supply int)
+//@   requires A >= 0 && supply > 0 && s <= t1 && t1 < t2 && t2 <= e && e - s >= secondNs
+//@   requires msAligned(s) && msAligned(e) && msAligned(t1) && msAligned(t2) && timeOK(s) && timeOK(e)
+//@   ensures abs((linSched(A, s, e, t2) - linSched(A, s, e, t1)) * yearNs - linInfl(A, s, e, supply) * supply * (t2 - t1))
+//@             <= (supply + 1) * (t2 - t1) + 2 * yearNs
+//@   reveal linSched, linInfl
+//@   uses rateCore(A * P, ms(e) - ms(s), ms(t1) - ms(s), ms(t2) - ms(s), tquo(A * P * (ms(t1) - ms(s)), ms(e) - ms(s)),
+//@     tquo(A * P * (ms(t2) - ms(s)), ms(e) - ms(s)), tquo(A * P * yearNs, e - s), tquo(tquo(A * P * yearNs, e - s), supply), supply)
+//@   uses tquoExact(A * P, ms(e) - ms(s))
+//@   prop C19
+//@ lemma linInflRateCanary(A int, s int, e int, t1 int, t2 int, supply int)
+//@   requires A >= 0 && supply > 0 && s <= t1 && t1 < t2 && t2 <= e && e - s >= secondNs
+//@   requires msAligned(s) && msAligned(e) && msAligned(t1) && msAligned(t2) && timeOK(s) && timeOK(e)
+//@   ensures (linSched(A, s, e, t2) - linSched(A, s, e, t1)) * yearNs == linInfl(A, s, e, supply) * supply * (t2 - t1)
+//@   reveal linSched, linInfl
+//@   expect fail
+//@   prop C19
+//@ lemma rateCore1(AP int, D int, p1 int, p2 int, q1 int, q2 int, R int, I int, supply int)
+//@   requires AP >= 0 && D > 0 && supply > 0 && 0 <= p1 && p1 < p2
+//@   requires D * q1 <= AP * p1 && AP * p1 < D * q1 + D && D * q2 <= AP * p2 && AP * p2 < D * q2 + D
+//@   requires D * R <= AP * yearNs && AP * yearNs < D * R + D
+//@   requires supply * I <= R && R < supply * I + supply
+//@   ensures abs((q2 - q1) * yearNs - I * supply * (p2 - p1)) <= (supply + 1) * (p2 - p1) + 2 * yearNs
+//@   uses mulMono(p2 - p1, supply * I, R), mulMono(p2 - p1, R, supply * I + supply)
+//@   uses mulMono(p2 - p1, D * R, AP * yearNs), mulMono(p2 - p1, AP * yearNs, D * R + D)
+//@   uses mulMono(D, supply * I * (p2 - p1), R * (p2 - p1)), mulMono(D, R * (p2 - p1), (supply * I + supply) * (p2 - p1))
+//@   uses mulCancelLe(D, (q2 - q1) * yearNs - I * supply * (p2 - p1), (supply + 1) * (p2 - p1) + 2 * yearNs)
+//@   uses mulCancelLe(D, 0 - ((supply + 1) * (p2 - p1) + 2 * yearNs), (q2 - q1) * yearNs - I * supply * (p2 - p1))
+//@   prop C19
+//@ lemma tquoUnique(x int, d int, n int)
+//@   requires d > 0 && x >= 0 && d * n <= x && x < d * n + d
+//@   ensures tquo(x, d) == n
+//@   prop C19
+//@ // inside step n (and before the period end) the schedule and the inflation have closed forms
+//@ lemma expInStep(A int, m int, step int, s int, e int, hasEnd bool, t int, supply int, n int)
+//@   requires step > 0 && n >= 0 && supply > 0 && s + n * step <= t && t < s + n * step + step && (hasEnd ==> t < e)
+//@   ensures expSched(A, m, step, s, e, hasEnd, t) == expS(A, m, n) + tquo(expE(A, m, n) * (t - s - n * step), step)
+//@   ensures expInfl(A, m, step, s, e, hasEnd, t, supply) == tquo(tquo(expE(A, m, n) * yearNs, step), supply)
+//@   reveal expSched, expInfl
+//@   uses tquoUnique(t - s, step, n)
+//@   prop C19
+//@ // exponential-step period: two instants inside the same step (n steps completed), before the period end
+//@ lemma expInflRate(A int, m int, step int, s int, e int, hasEnd bool, t1 int, t2 int, supply int, n int)
+//@   requires A > 0 && m >= 0 && step > 0 && supply > 0 && n >= 0
+//@   requires s + n * step <= t1 && t1 < t2 && t2 < s + n * step + step && (hasEnd ==> t2 < e)
+//@   ensures abs((expSched(A, m, step, s, e, hasEnd, t2) - expSched(A, m, step, s, e, hasEnd, t1)) * yearNs
+//@               - expInfl(A, m, step, s, e, hasEnd, t1, supply) * supply * (t2 - t1)) <= (supply + 1) * (t2 - t1) + 2 * yearNs
+//@   uses expENonNeg(A, m, n), expInStep(A, m, step, s, e, hasEnd, t1, supply, n), expInStep(A, m, step, s, e, hasEnd, t2, supply, n)
+//@   uses rateCore1(expE(A, m, n), step, t1 - s - n * step, t2 - s - n * step, tquo(expE(A, m, n) * (t1 - s - n * step), step),
+//@     tquo(expE(A, m, n) * (t2 - s - n * step), step), tquo(expE(A, m, n) * yearNs, step), tquo(tquo(expE(A, m, n) * yearNs, step), supply), supply)
+//@   prop C19
+//@ lemma inflZeroCases(A int, m int, step int, s int, e int, t int, supply int)
+//@   requires t >= e
+//@   ensures expInfl(A, m, step, s, e, true, t, supply) == 0
+//@   reveal expInfl
+//@   prop C19
